@@ -58,6 +58,9 @@ pub struct Shape {
     /// column at step s is r_j * (public prefix sum of the main column up to s), of a product column 1 at step 0
     #[serde(default)]
     pub aux_asserts: Vec<AsrSpec>,
+    /// trace metadata bytes carried in the proof context
+    #[serde(default)]
+    pub meta: Vec<u8>,
 }
 
 impl Shape {
@@ -71,11 +74,7 @@ impl Shape {
         self.aux_degs.len() + self.lagrange as usize
     }
     pub fn trace_info(&self) -> TraceInfo {
-        if self.aux_width() == 0 {
-            TraceInfo::new(self.width, self.n)
-        } else {
-            TraceInfo::new_multi_segment(self.width, self.aux_width(), self.aux_rands, self.n, vec![])
-        }
+        TraceInfo::new_multi_segment(self.width, self.aux_width(), self.aux_rands, self.n, self.meta.clone())
     }
     /// random element of auxiliary column j
     pub fn rand_of<E: FieldElement>(&self, j: usize, rands: &[E]) -> E {
